@@ -100,9 +100,15 @@ def parse(
             lexer.TokenType.VARIABLE_SET,
         ):
             structures.append(structure.GenericStatement([head]))
-        elif head.value == BREAK_CHARACTER:
+        elif (
+            head.name == lexer.TokenType.GENERAL
+            and head.value == BREAK_CHARACTER
+        ):
             structures.append(structure.BreakStatement(parent))
-        elif head.value == RECURSE_CHARACTER:
+        elif (
+            head.name == lexer.TokenType.GENERAL
+            and head.value == RECURSE_CHARACTER
+        ):
             structures.append(structure.RecurseStatement(parent))
         elif (
             head.name == lexer.TokenType.GENERAL
@@ -202,7 +208,10 @@ def parse(
                 )
                 structures.append(structure_cls(*branches))
 
-        elif head.value in MONADIC_MODIFIERS:
+        elif (
+            head.name == lexer.TokenType.GENERAL
+            and head.value in MONADIC_MODIFIERS
+        ):
             # the way to deal with all modifiers is to parse everything
             # after the modifier and dequeue as many structures as
             # needed to satisfy the arity of the modifier. It's import-
@@ -220,7 +229,10 @@ def parse(
                 )
             structures += remaining[1:]
             break
-        elif head.value in DYADIC_MODIFIERS:
+        elif (
+            head.name == lexer.TokenType.GENERAL
+            and head.value in DYADIC_MODIFIERS
+        ):
             if not tokens:
                 break
             remaining = parse(tokens, structure.DyadicModifier)
@@ -237,7 +249,10 @@ def parse(
                 )
             structures += remaining[2:]
             break
-        elif head.value in TRIADIC_MODIFIERS:
+        elif (
+            head.name == lexer.TokenType.GENERAL
+            and head.value in TRIADIC_MODIFIERS
+        ):
             if not tokens:
                 break
             remaining = parse(tokens, structure.TriadicModifier)
@@ -293,7 +308,7 @@ def _get_branches(tokens: deque[lexer.Token], bracket_stack: list[str]):
             branches[-1].append(token)
             bracket_stack.append(STRUCTURE_INFORMATION[token.value][-1])
 
-        elif token.value == "|":
+        elif token.name == lexer.TokenType.GENERAL and token.value == "|":
             if len(bracket_stack) == 1:
                 # that is, we are in the outer-most structure.
                 branches.append([])
